@@ -1161,7 +1161,7 @@ def _run(run: Run) -> None:
         oth = [c for c in cc if c not in pri]
         cc = rnd.sample(pri, min(50, len(pri))) + rnd.sample(oth, min(70, len(oth)))
     # ---- generated
-    n_gen = 30 if q else 1000
+    n_gen = 30 if q else 400
     per_batch = 5 if q else 10
     batches = [(run.seed * 100003 + i, min(per_batch, n_gen - i * per_batch), i) for i in range((n_gen + per_batch - 1) // per_batch)]
 
